@@ -256,3 +256,10 @@ func ParamLike() P {
 		return false
 	}
 }
+
+// ParamSlot matches what a function was handed by its caller: a parameter (or
+// its spill cell), or a field of a parameter that is a parameter object.
+func ParamSlot() P {
+	base := Or(Op("param", ""), ParamLike())
+	return Or(base, Field("", base))
+}
